@@ -32,13 +32,13 @@ CHECKS = {
     "C04": dict(
         families=lambda tier: [fam("scalar", BOTH, shards=4, digests=True, crumbs=True)],
         rule="every BOOLEAN/INTEGER/FLOAT/NAME arithmetic, logic, comparison, min/max, trig and conversion instruction, dispatched by NAME through the real InstructionSet and PushInterpreter::step, on every operand tuple of the boundary alphabets x {exact depth, two bystanders below} x {empty, fully populated} other stacks; oracle = reference model row (Exact / OneOf / Constraint), plus identical per-case outcome digests in the checked (overflow-checking) and release builds; non-trivial = cases whose step changes the state",
-        bounds=dict(quick="INTEGER 11 boundary values, FLOAT 13 (incl. -0.0, inf, NaN, MIN_POSITIVE), all pairs", thorough="INTEGER 17, FLOAT 18 values, all pairs"),
+        bounds=dict(quick="INTEGER 11 boundary values, FLOAT 13 (incl. -0.0, inf, NaN, MIN_POSITIVE), all pairs", thorough="INTEGER 27 values (incl. 46340/46341, 2^24+1, 2^30), FLOAT 29 values (incl. subnormals, 2^24, 2^31, 0.99999994), all pairs"),
         assumptions=["operand values outside the boundary alphabets are not explored", "f32::sin/cos/tan/exp of std are the documented meaning of the trigonometric instructions"],
     ),
     "C05": dict(
         families=lambda tier: [fam("all")],
         rule="9 stack types x {DUP,POP,SWAP,ROT,YANK,YANKDUP,SHOVE,FLUSH,STACKDEPTH} (every registered one) x depth 0..N of pairwise distinct items x index in {none, MIN, -2..depth+1, MAX} x {no second integer, a second integer below the index}; oracle = ONE generic position map applied to an abstract list (the same function for all nine types) + multiset conservation + every other component unchanged",
-        bounds=dict(quick="depth 0..5", thorough="depth 0..7"),
+        bounds=dict(quick="depth 0..5", thorough="depth 0..10"),
         assumptions=["BOOLEAN items cannot be pairwise distinct; an aperiodic pattern is used instead"],
     ),
     "C06": dict(
@@ -50,19 +50,19 @@ CHECKS = {
     "C07": dict(
         families=lambda tier: [fam(t) for t in ("BOOLEAN", "INTEGER", "FLOAT", "CODE", "EXEC", "BOOLVECTOR", "INTVECTOR", "FLOATVECTOR", "cross")],
         rule="explicit-state BFS from the empty state, one BFS per value type T (and one across two types): actions = put one token on EXEC and execute one real interpreter step (names X, Y, NAME.QUOTE, T.DEFINE, CODE.DEFINITION, T.POP, NAME.POP, two values of T incl. code items that mention a name) or execute one pending step; states de-duplicated on the canonical snapshot (bindings and quote flag included); oracle after EVERY transition: full state equals the reference interpreter's (unbound name -> NAME; bound -> binding pushed for execution; quote affects exactly the next name; redefinition replaces; CODE.DEFINITION returns the binding)",
-        bounds=dict(quick="depth 8 (cross 6), stacks capped at depth 3-4", thorough="depth 11 (cross 8)"),
+        bounds=dict(quick="depth 8 (cross 6), stacks capped at depth 3-4", thorough="depth 13 (cross 9)"),
         assumptions=["two names and two values per type"],
     ),
     "C08": dict(
         families=lambda tier: [fam("unary", shards=4, crumbs=True), fam("binary", shards=10, crumbs=True), fam("deep", shards=12, crumbs=True), fam("api", shards=2)],
         rule="all code trees up to S points over a 6-atom alphabet (int 1, 2, 11, float, name, instruction; 3 atoms for pairs): SIZE, EXTRACT, CAR, CDR, LENGTH, NTH, NULL, ATOM on every tree x every index in [-2S,2S] u {MIN,MAX}; INSERT (x every index), POSITION, CONTAINER, CONTAINS, MEMBER, =, CONS, LIST, DISCREPANCY on all pairs (t,u), SUBST on triples; by NAME through step; oracle = reference tree functions (depth-first point indexing) + the metamorphic equations of the statement (EXTRACT after INSERT, POSITION/EXTRACT, -1 iff no occurrence, DISCREPANCY symmetric and 0 on identical items, atoms conserved); the Item:: API (size, traverse, contains, container, equals, insert, substitute) checked directly; (deep) all trees with 5..D points over a 2-atom alphabet x all patterns up to 3 points for POSITION/CONTAINER/CONTAINS/MEMBER and every index for EXTRACT/INSERT (index arithmetic after several nested lists)",
-        bounds=dict(quick="trees <= 4 points (unary: 6 atoms; pairs: |t|<=4, |u|<=3 over 3 atoms); deep: D=6", thorough="trees <= 5 points; deep: D=7"),
+        bounds=dict(quick="trees <= 4 points (unary: 6 atoms; pairs: |t|<=4, |u|<=3 over 3 atoms); deep: D=6", thorough="unary: trees <= 6 points, pairs: |t| <= 5; deep: D=8"),
         assumptions=["atoms outside the alphabet behave like those inside; NaN atoms are not explored"],
     ),
     "C09": dict(
         families=lambda tier: [fam("vector", BOTH, shards=8, digests=True, crumbs=True)],
         rule="every BOOLVECTOR/INTVECTOR/FLOATVECTOR instruction that is not a generic stack operation or RAND, by NAME through step: all ordered pairs of a vector pool (lengths 0..N, equal and unequal, ramp / boundary / zero-containing / repeating patterns; all boolean vectors) x offsets/indices {MIN,-5..5,MAX} x scalar operands; oracle = reference row (second[j] op top[j-offset] on the overlap, clamped GET/SET, documented aggregates), identical digests in checked and release builds",
-        bounds=dict(quick="vector length <= 3", thorough="vector length <= 4"),
+        bounds=dict(quick="vector length <= 3", thorough="vector length <= 5"),
         assumptions=["sizes above 1000 for ONES/ZEROS/SINE belong to the resource envelope (C15) and are not swept here"],
     ),
     "C10": dict(
@@ -107,7 +107,7 @@ CHECKS = {
     "C16": dict(
         families=lambda tier: [fam("int"), fam("item")],
         rule="explicit-state BFS to fixpoint over PushStack<i32> and PushStack<Item>: every reachable content of bounded size x every public operation x every position in [0,len+2], each compared (return value and contents) with a Vec whose index 0 is the top; non-trivial = transitions that change the container",
-        bounds=dict(quick="i32: values {1,2}, size<=5; Item: values {1,( 1 ),( )}, size<=4", thorough="i32: values {1,2,3}, size<=7; Item: 4 values, size<=5"),
+        bounds=dict(quick="i32: values {1,2}, size<=5; Item: values {1,( 1 ),( )}, size<=4", thorough="i32: values {1,2,3}, size<=8; Item: 4 values, size<=5"),
         assumptions=["a PushStack has no state besides its element vector (checked: derived Debug shows one field)", "element values outside the alphabet behave like those inside (the container is parametric in T)"],
     ),
     "C17": dict(
